@@ -4,7 +4,7 @@ import re
 
 from ..core import AnalysisError
 from .. import pyfront as P
-from .. import rx
+from .. import rx, gsa, strfrag
 
 EXPLANATION = ('Decides only the clauses visible in the shape of giscanner/annotationparser.py: the serialiser and the '
                'parser agree on every token (separators, key=value split at the FIRST "=", annotation names only '
@@ -30,56 +30,94 @@ def check(ctx):
     pd = method(py, 'GtkDocCommentBlockParser._parse_annotation_options_dict')
     pl = method(py, 'GtkDocCommentBlockParser._parse_annotation_options_list')
     pa = method(py, 'GtkDocCommentBlockParser._parse_annotation')
-    # serialiser formats
-    fmts = []
-    for n in P.walk_no_nested(ser):
-        if isinstance(n, ast.BinOp) and isinstance(n.op, ast.Mod) and isinstance(n.left, ast.Constant) and isinstance(n.left.value, str):
-            fmts.append(n.left.value)
-    joins = [py.try_fold(c.func.value, m) for c in P.calls_in(ser) if isinstance(c.func, ast.Attribute) and c.func.attr == 'join']
+    # serialiser: the text it can produce, as a set of string-shape fragments
+    wm = py.methods('annotationparser', 'GtkDocCommentBlockWriter')
     lpar, rpar = py.fold_name(m, 'ANN_LPAR'), py.fold_name(m, 'ANN_RPAR')
-    r1.check(sorted(fmts) == sorted(['%s=%s ', '%s ', '(%s %s)', '(%s)']), 'serialiser formats', rel, ser.lineno,
-             'annotation serialiser formats changed: %s' % fmts, detail=fmts)
-    r1.check(all(f.startswith(lpar) and f.endswith(rpar) for f in fmts if '(' in f or ')' in f) and lpar == '(' and rpar == ')',
-             'parentheses tokens', rel, ser.lineno, 'serialiser does not wrap annotations in ANN_LPAR/ANN_RPAR')
-    r1.check(joins.count(' ') == 2, 'options and annotations joined by one space', rel, ser.lineno, 'join separators: %s' % joins, detail=joins)
-    # dict parser: split(' ') then split('=', 1)
-    splits = [c for c in P.calls_in(pd) if isinstance(c.func, ast.Attribute) and c.func.attr == 'split']
-    sp = {P.src(c.func.value): [py.try_fold(a, m) for a in c.args] for c in splits}
-    loopvars = [n.target.id for n in P.walk_no_nested(pd) if isinstance(n, ast.For) and isinstance(n.target, ast.Name)]
-    r1.check(sp.get('options') == [' '], 'dict options split on the serialiser\'s separator', rel, pd.lineno, 'options.split(%s)' % sp.get('options'))
-    kv = [v for k, v in sp.items() if k in loopvars]
-    r1.check(kv == [['=', 1]], 'key=value split at the first "=" only', rel, pd.lineno,
-             'key=value pairs are split with split(%s): a value that itself contains "=" (URLs, base64) is lost' % (kv,), detail=kv)
-    st = {P.src(t): P.src(v) for t, v, s_ in P.stores_in(pd)}
-    r1.check(st.get('key') == 'parts[0]' and st.get('value') == 'parts[1] if len(parts) == 2 else None' and st.get('parsed[key]') == 'value',
-             'key and value taken from the two halves', rel, pd.lineno, 'stores: %s' % st)
+    exprs, flow = strfrag.universe(ser, wm)
+    shapes = []
+    seps = []
+    for e in exprs:
+        fr = strfrag.flatten(e)
+        for x in fr:
+            if x[0] == 'join':
+                seps.append(strfrag.merge_consts(x[1]))
+        for seq in strfrag.sequences(fr):
+            shapes.append([x if x[0] == 'const' else (x[0], P.src(x[1]) if x[0] == 'expr' else '') for x in strfrag.merge_consts(seq)])
+    consts = sorted(set(x[1] for sh in shapes for x in sh if x[0] == 'const'))
+    r1.check(consts and all(c in ('(', ')', ' ', '=') for c in consts), 'serialiser tokens are "(", ")", " " and "="', rel, ser.lineno,
+             'the annotation serialiser concatenates the literal text %s: the parser splits on single spaces, the first "=" and parentheses only' % consts, detail=consts)
+
+    def has_shape(pattern):
+        for sh in shapes:
+            kinds = [x[1] if x[0] == 'const' else '$' for x in sh]
+            if kinds[:len(pattern)] == pattern and len(kinds) in (len(pattern), len(pattern) + 1) and (len(kinds) == len(pattern) or kinds[-1] == ' '):
+                return True
+        return False
+    r1.check(has_shape(['(', '$', ')']) and has_shape(['(', '$', ' ', '$', ')']) and lpar == '(' and rpar == ')', 'annotation written as (name) / (name options)', rel, ser.lineno,
+             'serialiser does not write annotations as ANN_LPAR name [space options] ANN_RPAR: %s' % [sh for sh in shapes if any(x == ('const', '(') for x in sh)], detail=shapes)
+    r1.check(has_shape(['$', '=', '$']) and has_shape(['$']), 'options written as key=value / key', rel, ser.lineno, 'option shapes: %s' % [sh for sh in shapes if any(x == ('const', '=') for x in sh)])
+    r1.check(len(seps) >= 2 and all(sp_ == [('const', ' ')] for sp_ in seps), 'options and annotations joined by one space', rel, ser.lineno, 'join separators: %s' % seps, detail=seps)
+    # dict parser: options split on ' ', each at the first '=' only
+    PD = gsa.summarise(ctx, 'annotationparser', 'GtkDocCommentBlockParser._parse_annotation_options_dict', inline_only=())
+    optp = [a_.arg for a_ in pd.args.args][-1]
+
+    def splitters(S, sep):
+        out = []
+        for c in S.effects:
+            if c.kind == 'call' and re.search(r'\.(r?split|r?partition)$', c.target) and c.args and c.args[0] == repr(sep):
+                out.append(c)
+        return out
+    osp = splitters(PD, ' ')
+    r1.check(len(osp) == 1 and osp[0].target == '%s.split' % optp and osp[0].args == ["' '"], 'dict options split on the serialiser\'s separator', rel, pd.lineno, 'option splits: %s' % [c.value for c in osp])
+    kv = splitters(PD, '=')
+    okkv = len(kv) == 1 and ((kv[0].target.endswith('.split') and kv[0].args == ["'='", '1']) or (kv[0].target.endswith('.partition') and kv[0].args == ["'='"]))
+    r1.check(okkv, 'key=value split at the first "=" only', rel, pd.lineno,
+             'key=value pairs are split with %s: a value that itself contains "=" (URLs, base64) is lost' % ([c.value for c in kv],), detail=[c.value for c in kv])
+    stores = [e for e in PD.effects if e.kind == 'store' and re.match(r'^\w+\[.*\]$', e.target)]
+    half = r"\.split\('=', 1\)\[%d\]$|\.partition\('='\)\[%d\]$"
+    okhalves = bool(stores) and all(re.search(half % (0, 0), e.target[:-1]) for e in stores) and \
+        sorted(set('None' if e.value == 'None' else ('second' if re.search(half % (1, 2), e.value) else e.value) for e in stores)) == ['None', 'second']
+    r1.check(okhalves, 'key and value taken from the two halves', rel, pd.lineno, 'stores: %s' % [(e.target, e.value) for e in stores])
     # list parser
-    lsp = [[py.try_fold(a, m) for a in c.args] for c in P.calls_in(pl) if isinstance(c.func, ast.Attribute) and c.func.attr == 'split'
-           and P.src(c.func.value) == 'options']
-    r1.check(lsp == [[' ']], 'list options split on one space', rel, pl.lineno, 'options.split%s' % lsp)
+    PL = gsa.summarise(ctx, 'annotationparser', 'GtkDocCommentBlockParser._parse_annotation_options_list', inline_only=())
+    lopt = [a_.arg for a_ in pl.args.args][-1]
+    lsp = splitters(PL, ' ')
+    r1.check(len(lsp) == 1 and lsp[0].target == '%s.split' % lopt and lsp[0].args == ["' '"], 'list options split on one space', rel, pl.lineno, 'option splits: %s' % [c.value for c in lsp])
     # annotation name: only lower-cased
-    nm = [v for t, v, s_ in P.stores_in(pa) if isinstance(t, ast.Name) and t.id == 'ann_name']
-    first = nm[0] if nm else None
-    r1.check(first is not None and P.src(first) == 'parts[0].lower()', 'annotation name only lower-cased', rel, pa.lineno,
-             'annotation name is transformed as `%s`: a name written by the user (or by the comment writer) is parsed back as a different one'
-             % (P.src(first) if first is not None else None), detail=P.src(first) if first is not None else None)
-    others = [P.src(v) for v in nm[1:]]
-    r1.check(sorted(others) == ['ANN_ATTRIBUTES', 'ANN_INOUT'], 'only the two deprecated spellings are renamed', rel, pa.lineno, 'other renames: %s' % others)
-    psplit = [v for t, v, s_ in P.stores_in(pa) if isinstance(t, ast.Name) and t.id == 'parts']
-    r1.check(len(psplit) == 1 and P.src(psplit[0]) == "annotation.split(' ', 1)", 'name/options split at the first space', rel, pa.lineno,
-             'parts = %s' % [P.src(v) for v in psplit])
+    PA = gsa.summarise(ctx, 'annotationparser', 'GtkDocCommentBlockParser._parse_annotation', inline_only=())
+    annp = [a_.arg for a_ in pa.args.args][-1]
+    names = []
+    for g, n in PA.returns:
+        if isinstance(n, ast.Tuple) and len(n.elts) == 2:
+            t_ = gsa._unparse(n.elts[0])
+            if t_ not in names:
+                names.append(t_)
+    derived = [t_ for t_ in names if not re.match(r'^(None|ANN_\w+)$', t_)]
+    NAME_RE = r"^%s(\.replace\('<', ANN_LPAR\)\.replace\('>', ANN_RPAR\))?\.(split\(' ', 1\)|partition\(' '\))\[0\]\.lower\(\)$" % re.escape(annp)
+    r1.check(len(derived) == 1 and re.match(NAME_RE, derived[0]), 'annotation name only lower-cased', rel, pa.lineno,
+             'annotation name is derived as `%s`: a name written by the user (or by the comment writer) is parsed back as a different one' % derived, detail=derived)
+    others = sorted(t_ for t_ in names if re.match(r'^ANN_\w+$', t_))
+    r1.check(others == ['ANN_ATTRIBUTES', 'ANN_INOUT'], 'only the two deprecated spellings are renamed', rel, pa.lineno, 'other renames: %s' % others)
+    psplit = splitters(PA, ' ')
+    r1.check(len(psplit) == 1 and ((psplit[0].target.endswith('.split') and psplit[0].args == ["' '", '1']) or (psplit[0].target.endswith('.partition') and psplit[0].args == ["' '"])),
+             'name/options split at the first space', rel, pa.lineno, 'splits: %s' % [c.value for c in psplit])
     # parameter / tag / identifier tokens
     sp_ = method(py, 'GtkDocCommentBlockWriter._serialize_parameter')
     stag = method(py, 'GtkDocCommentBlockWriter._serialize_tag')
-    wr = method(py, 'GtkDocCommentBlockWriter.write')
-    pinit = [P.src(v) for t, v, s_ in P.stores_in(sp_) if isinstance(t, ast.Name) and t.id == 'serialized' and isinstance(s_, ast.Assign)]
-    r1.check(pinit == ["'@%s' % (parameter.name,)"], 'parameter written as @name', rel, sp_.lineno, 'serialized = %s' % pinit)
-    tinit = [P.src(v) for t, v, s_ in P.stores_in(stag) if isinstance(t, ast.Name) and t.id == 'serialized' and isinstance(s_, ast.Assign)]
-    r1.check(tinit == ['tag.name.capitalize()'], 'tag written as Name', rel, stag.lineno, 'serialized = %s' % tinit)
-    for fn in (sp_, stag):
-        aug = [py.try_fold(n.value.left if isinstance(n.value, ast.BinOp) else n.value, m) for n in P.walk_no_nested(fn) if isinstance(n, ast.AugAssign)]
-        r1.check(aug and all(isinstance(a, str) and a.startswith(':') for a in aug), '%s: fields introduced by ":"' % fn.name, rel, fn.lineno,
-                 'field separators: %s' % aug, detail=aug)
+    for fn, head in ((sp_, ['@', '$']), (stag, ['$'])):
+        ex2, fl2 = strfrag.universe(fn, wm)
+        own = [e for e in ex2 if e not in exprs]
+        sh2 = []
+        for e in own:
+            for seq in strfrag.sequences(strfrag.flatten(e)):
+                sh2.append([x if x[0] == 'const' else (x[0], P.src(x[1]) if x[0] == 'expr' else '') for x in strfrag.merge_consts(seq)])
+        first = [sh for sh in sh2 if sh and (sh[0] == ('const', '@') or (head == ['$'] and sh[0][0] == 'expr' and sh[0][1].endswith('.name.capitalize()')))]
+        pn = fn.args.args[1].arg
+        okhead = bool(first) and all((sh[-1] == ('expr', '%s.name' % pn) if head[0] == '@' else sh[0] == ('expr', '%s.name.capitalize()' % pn)) and len(sh) == len(head) for sh in first)
+        r1.check(okhead, '%s: starts with %s' % (fn.name, '@name' if head[0] == '@' else 'capitalised tag name'), rel, fn.lineno, 'leading shapes: %s' % first)
+        rest = [sh for sh in sh2 if sh not in first and any(x[0] == 'const' for x in sh)]
+        r1.check(rest and all(sh[0][0] == 'const' and sh[0][1] in (':', ': ') for sh in rest), '%s: fields introduced by ":"' % fn.name, rel, fn.lineno,
+                 'field separators: %s' % [sh[0] for sh in rest], detail=[sh[0] for sh in rest])
     regs = {}
     for name in ('PARAMETER_RE', 'TAG_RE', 'SYMBOL_RE', 'LINE_BREAK_RE'):
         c = m.assigns[name][0]
